@@ -10,6 +10,7 @@ import (
 	"os"
 	"path"
 	"runtime/debug"
+	"sync"
 	"time"
 
 	"github.com/rs/zerolog/log"
@@ -91,7 +92,16 @@ func newGenerateCommand() *cobra.Command {
 
 // dedup fsnotify events
 func dedupLoop(configArgs map[string]string, w *fsnotify.Watcher, completedChannel chan<- error) {
+	// Regenerations are serialized: every firing of the debounce timer runs on its own
+	// goroutine, and two of them running at once could leave the output of the older
+	// one on disk. A firing that arrives while a regeneration is in progress waits for
+	// it, so the last regeneration always starts after the last observed change.
+	var regenerateMutex sync.Mutex
+
 	regenerate := func() {
+		regenerateMutex.Lock()
+		defer regenerateMutex.Unlock()
+
 		dirsToWatch := generateInWatchMode(configArgs)
 		if dirsToWatch != nil && len(dirsToWatch) > len(w.WatchList()) {
 			for _, dir := range dirsToWatch {
